@@ -39,7 +39,7 @@ M = [
  ("M25", "C09", [("src/Stream/BidirectionalReader.h", "\t\t\tReadImplementation(buffer, size);\n\t\t\tSeekBackward(size);", "\t\t\tReadImplementation(buffer, size);\n\t\t\tif (size != 4) SeekBackward(size);")], "4-byte peeks move the position"),
  ("M26", "C10", [("src/Sprite/ArtWriter.cpp", "\t\tif (frame.unknownBitfield.bReadOptionalData) {\n\t\t\twriter.Write(frame.optional3);", "\t\tif (frame.layerMetadata.bReadOptionalData) {\n\t\t\twriter.Write(frame.optional3);")], "optional bytes 3/4 written under the wrong flag"),
  ("M27", "C10", [("src/Sprite/ArtWriter.cpp", "for (auto pallete : palettes) {", "for (auto& pallete : const_cast<std::vector<Palette8Bit>&>(palettes)) {")], "palette swapped in place on the object during Write"),
- ("M28", "C11", [("src/Sprite/ArtFile.cpp", "if (imageMeta.paletteIndex >= palettes.size()) {", "if (imageMeta.paletteIndex > palettes.size()) {")], "palette index == palette count accepted; sprite extraction then indexes past the palettes"),
+ ("M28", "C11", [("src/Bitmap/IndexedBmpReader.cpp", "\t\tBitmapFile::VerifyPixelSizeMatchesImageDimensionsWithPitch(bitmapFile.imageHeader.bitCount, bitmapFile.imageHeader.width, bitmapFile.imageHeader.height, pixelContainerSize);\n", "")], "pixel-size cross-check dropped from the bitmap reader: a header whose pitch x height exceeds the pixel bytes is loaded; flip/save then walk past the pixels"),
  ("M29", "C12", [("src/Stream/MemoryReader.cpp", "\tvoid MemoryReader::Seek(uint64_t position) {\n\t\tif (position > streamSize) {", "\tvoid MemoryReader::Seek(uint64_t position) {\n\t\tif (position >= streamSize) {")], "legal seek to the end refused"),
  ("M30", "C12", [("src/Stream/MemoryReader.cpp", "if (newPosition > streamSize || newPosition < this->position) // Check if offset wraps past max size.", "if (newPosition > streamSize)")], "wrap test removed from SeekForward"),
  ("M31", "C13", [("src/Stream/SliceReader.h", "\t\t\tsliceLength(fileSliceReader.sliceLength)\n\t\t{\n\t\t\tInitialize();\n\t\t}", "\t\t\tsliceLength(fileSliceReader.sliceLength)\n\t\t{\n\t\t}")], "copied slice not repositioned to its start"),
